@@ -7,6 +7,7 @@ mod c04;
 mod c06;
 mod c08;
 mod c14;
+mod c15;
 mod c16;
 mod views;
 mod c17;
@@ -55,6 +56,7 @@ fn main() {
         "C06" => c06::generate(&mut out, seed, thorough),
         "C08" => c08::generate(&mut out, seed, thorough),
         "C14" => c14::generate(&mut out, seed, thorough),
+        "C15" => c15::generate(&mut out, seed, thorough),
         "C16" => c16::generate(&mut out, seed, thorough),
         "dump-tables" => {
             std::fs::create_dir_all(&outdir).unwrap();
